@@ -378,6 +378,61 @@ fn run_once(source: &str, obs: &mut Obs, what: &str) -> Option<RunResult> {
     }
 }
 
+/// Entry point of the libFuzzer target `c09_tex_source` (harness/vfuzz): one fuzzer-chosen source text through
+/// `run_once` - the same totality oracle (no panic, Ok or a located, renderable Err, balanced execution stack, no
+/// pending shutdown) as the generated programs. The first byte selects the interaction mode; the run happens on a
+/// thread with a 512 MiB stack like the monitor's own cases (deep but finite recursion is not a crash here).
+pub fn fuzz_one(data: &[u8], obs: &mut Obs) {
+    let Some((mode, rest)) = data.split_first() else {
+        return;
+    };
+    let Ok(text) = std::str::from_utf8(rest) else {
+        return;
+    };
+    let mut s = String::from(MODES[(*mode % 4) as usize]);
+    s.push_str(text);
+    std::thread::scope(|sc| {
+        let h = std::thread::Builder::new()
+            .stack_size(512 << 20)
+            .spawn_scoped(sc, || {
+                run_once(&s, obs, "fuzz");
+            });
+        match h {
+            Ok(h) => {
+                let _ = h.join();
+            }
+            Err(_) => {}
+        }
+    });
+}
+
+/// Seed corpus (the repository's error cases, generated programs; first byte = interaction mode) and dictionary (every
+/// installed primitive and the rest of the generator's vocabulary) for the libFuzzer target.
+pub fn fuzz_seeds() -> vcore::fuzzglue::Seeds {
+    let mut inputs: Vec<Vec<u8>> = vec![];
+    for (i, s) in error_case_seeds().iter().enumerate() {
+        let mut v = vec![(i % 4) as u8];
+        v.extend_from_slice(s.as_bytes());
+        inputs.push(v);
+    }
+    for k in 0..400u64 {
+        let mut rng = Rng::new(0xC09 + k);
+        let n = rng.range_usize(1, 10);
+        let mut v = vec![(k % 4) as u8];
+        for _ in 0..n {
+            v.extend_from_slice(gen_fragment(&mut rng).as_bytes());
+        }
+        if v.len() <= 2048 {
+            inputs.push(v);
+        }
+    }
+    let mut dictionary: Vec<String> = vocabulary().clone();
+    for w in NUMBERS.iter().chain(UNITS.iter()).chain(FILES.iter()) {
+        dictionary.push(w.to_string());
+    }
+    vcore::fuzzglue::Seeds { inputs, dictionary }
+}
+
 fn error_case_seeds() -> Vec<String> {
     vstate::texlang_stdlib::ErrorCase::all_error_cases()
         .into_iter()
